@@ -73,7 +73,8 @@ def cases(ctx):
         # the inputs may themselves be petl views of any kind (a descending or keyed sort, a pass-through, ...)
         wrap = (None, None) if (presorted or rng.random() < 0.75) else (rng.choice(WRAPS), rng.choice(WRAPS))
         yield {'a': a, 'b': b, 'strict': rng.random() < 0.4, 'presorted': presorted, 'perm': perm,
-               'tuples': (rng.random() < 0.5, rng.random() < 0.5), 'wrap': wrap}
+               'tuples': (rng.random() < 0.5, rng.random() < 0.5), 'wrap': wrap,
+               'buffersize': None if (presorted or rng.random() < 0.88) else rng.choice([1, 1, 2, 3])}
 
 
 def _cnt(rows):
@@ -196,6 +197,11 @@ def judge(case, ctx):
         return body
 
     pk = {'presorted': True} if case['presorted'] else {}
+    if case.get('buffersize') is not None:
+        # the sorts behind the operators go through chunk files (the same multisets are due)
+        pk = {'buffersize': case['buffersize']}
+        if max(len(ra), len(rb)) > 2 * case['buffersize']:
+            ctx.seen('sorts-through-3+-chunk-files')
     if case['presorted']:
         ctx.seen('presorted')
     sk = {'strict': True} if strict else {}
@@ -230,8 +236,9 @@ def judge(case, ctx):
         b = _container(bp, case['tuples'][1], wb)
         bsrc_strict = Counter(util.crow([r[i] for i in perm] if perm else r) for r in rb)
         bperm_hdr = tuple(bp[0])
-        check('recordcomplement', lambda: petl.recordcomplement(a, b, **sk), hdr_a, exp_comp, arows_strict)
-        rres = util.attempt(lambda: petl.recorddiff(a, b, **sk))
+        bk = {'buffersize': case['buffersize']} if case.get('buffersize') is not None else {}
+        check('recordcomplement', lambda: petl.recordcomplement(a, b, **sk, **bk), hdr_a, exp_comp, arows_strict)
+        rres = util.attempt(lambda: petl.recorddiff(a, b, **sk, **bk))
         if isinstance(rres, util.Raised):
             out.append({'kind': 'exception', 'fn': 'recorddiff', 'detail': rres.text, 'where': rres.where})
         else:
